@@ -99,6 +99,13 @@ impl Engine for Sinks {
                     lines.extend(ops.iter().cloned());
                     lines.push("drain".into());
                     out.push(Case { lines });
+                    // buffers created closed (`with_capacity_closed`), for the shorter sequences
+                    if len <= maxlen - 1 {
+                        let mut lines = vec![format!("case buf {cap} 0")];
+                        lines.extend(ops.iter().cloned());
+                        lines.push("drain".into());
+                        out.push(Case { lines });
+                    }
                 }
                 let mut lines = vec!["case slot 1".to_string()];
                 lines.extend(ops.iter().cloned());
